@@ -7,7 +7,8 @@ For every case it
   the model (`mkCfg`) and compares (`DIFF … what=config`),
 * replays every event on the model (`Gatery.C15.step`) and compares all interface values before each edge
   (`DIFF`; only the first difference of a case is reported, the model cannot resynchronise),
-* evaluates the queue specification (`Gatery.C15.qcheck`) on the IMPLEMENTATION's trace (`PROPFAIL kind=…`).
+* evaluates the queue specification (`Gatery.C15.qcheck`) on the IMPLEMENTATION's trace (`PROPFAIL kind=…`;
+  only the first violating event of a case is reported — afterwards the abstract queue is out of step).
 -/
 open Gatery.C15
 
@@ -30,6 +31,9 @@ structure Case where
   st : State String := init { k := 0, lw := 1, lr := 1 } "x"
   q : QState String := {}
   modelOk : Bool := true      -- false after the first DIFF of the case
+  stream : Bool := false      -- case drives strm::fifo (ready/valid wrapper)
+  fall : Bool := false
+  specOk : Bool := true       -- false after the first PROPFAIL event of the case (the abstract queue is then out of step)
   active : Bool := false
   events : Nat := 0
   seenWrapP : Nat := 0
@@ -72,6 +76,16 @@ def startCase (d : D) (toks : List String) (lineNo : Nat) : IO D := do
   let lat := (parseLat (get "lat")).getD .dontCare
   let model := mkCfg minD dual lat
   let mut d := { d with cases := d.cases + 1 }
+  if field toks "mode" == some "stream" then
+    d := { d with hist := (d.hist.bump "stream").bump s!"stream_lat_{get "lat"}" }
+    match field toks "err", mkCfg minD false (streamInnerLat lat) with
+    | none, some m =>
+      let x := String.ofList (List.replicate w 'x')
+      return { d with cs := { id := id, cfg := m, w := w, st := init m x, q := {}, active := true, stream := true,
+                              fall := streamFallThrough lat, line0 := lineNo } }
+    | err, m =>
+      IO.println s!"DIFF case={id} line={lineNo} what=config model={repr m} impl=err:{err}"
+      return { d with diffs := d.diffs + 1, errcases := d.errcases + 1, cs := { id := id, active := false } }
   d := { d with hist := (d.hist.bump (if dual then "dual" else "single")).bump s!"lat_{(get "lat").take 1}" }
   match field toks "err" with
   | some err =>
@@ -125,10 +139,11 @@ def doEvent (d : D) (toks : List String) (lineNo : Nat) : IO D := do
         cs := { cs with st := step c cs.st e }
     -- specification vs implementation
     let fillBefore := cs.q.queue.length
-    let (viol, q') := qcheck c.N c.M c.lw cs.q e oi
+    let (viol, q') := if cs.specOk then qcheck c.N c.M c.lw cs.q e oi else ([], cs.q)
     for v in viol do
       IO.println s!"PROPFAIL case={cs.id} line={lineNo} event={cs.events} kind={v} fill={fillBefore} N={c.N} lw={c.lw} ev=[{" ".intercalate toks}]"
       d := { d with propfails := d.propfails + 1 }
+    if !viol.isEmpty then cs := { cs with specOk := false }
     -- coverage of the boundary situations
     let mut cov := d.cov
     if e.pushRst || e.popRst then cov := cov.bump "reset_events"
@@ -150,6 +165,49 @@ def doEvent (d : D) (toks : List String) (lineNo : Nat) : IO D := do
     IO.println s!"DIFF case={cs.id} line={lineNo} what=unparsed-event"
     return { d with diffs := d.diffs + 1 }
 
+def doStreamEvent (d : D) (toks : List String) (lineNo : Nat) : IO D := do
+  let cs := d.cs
+  if !cs.active then return d
+  match toks with
+  | [_, rst, inValid, data, outReady, _, inReady, outValid, outData] =>
+    let c := cs.cfg
+    let mut d := { d with events := d.events + 1 }
+    let mut cs := cs
+    if cs.modelOk then
+      let om := streamOutputs cs.fall cs.st (b inValid) data
+      let sm := s!"{bs om.inReady} {bs om.outValid} {om.outData}"
+      let si := s!"{inReady} {outValid} {outData}"
+      -- out_data is only meaningful while out_valid
+      let same := bs om.inReady == inReady && bs om.outValid == outValid && (!om.outValid || om.outData == outData)
+      if !same then
+        IO.println s!"DIFF case={cs.id} line={lineNo} event={cs.events} what=stream-outputs model=[{sm}] impl=[{si}]"
+        d := { d with diffs := d.diffs + 1 }
+        cs := { cs with modelOk := false }
+      else
+        cs := { cs with st := step c cs.st (streamEvent cs.fall cs.st (b rst) (b inValid) data (b outReady)) }
+    let fillBefore := cs.q.queue.length
+    let (viol, q') := if cs.specOk then scheck c.N c.lw cs.fall cs.q (b rst) (b inValid) data (b outReady) (b inReady) (b outValid) outData
+                      else ([], cs.q)
+    for v in viol do
+      IO.println s!"PROPFAIL case={cs.id} line={lineNo} event={cs.events} kind={v} fill={fillBefore} N={c.N} lw={c.lw} ev=[{" ".intercalate toks}]"
+      d := { d with propfails := d.propfails + 1 }
+    if !viol.isEmpty then cs := { cs with specOk := false }
+    let mut cov := d.cov
+    if b rst then cov := cov.bump "reset_events"
+    else
+      cov := cov.bump "stream_cycles"
+      let acc := b inValid && b inReady
+      let yld := b outValid && b outReady
+      if acc then cov := cov.bump "stream_accepted"
+      if yld then cov := cov.bump "stream_yielded"
+      if acc && yld && fillBefore == 0 then cov := cov.bump "stream_fallthrough_beats"
+      if b inValid && !(b inReady) then cov := cov.bump "stream_backpressure_at_capacity"
+    d := { d with cov := cov }
+    return { d with cs := { cs with q := q', events := cs.events + 1 } }
+  | _ =>
+    IO.println s!"DIFF case={cs.id} line={lineNo} what=unparsed-event"
+    return { d with diffs := d.diffs + 1 }
+
 partial def loop (h : IO.FS.Stream) (d : D) (lineNo : Nat) : IO D := do
   let line ← h.getLine
   if line.isEmpty then return d
@@ -159,6 +217,7 @@ partial def loop (h : IO.FS.Stream) (d : D) (lineNo : Nat) : IO D := do
   | "#" :: _ => loop h d (lineNo + 1)
   | "case" :: _ => loop h (← startCase d toks lineNo) (lineNo + 1)
   | "t" :: _ => loop h (← doEvent d toks lineNo) (lineNo + 1)
+  | "s" :: _ => loop h (← doStreamEvent d toks lineNo) (lineNo + 1)
   | "abort" :: rest =>
     IO.println s!"DIFF case={d.cs.id} line={lineNo} what=harness-abort msg=[{" ".intercalate rest}]"
     loop h { d with diffs := d.diffs + 1 } (lineNo + 1)
